@@ -252,7 +252,7 @@ class Key(AbstractKey):
         self.is_default = is_default
 
     def __len__(self) -> int:
-        cursor = self.pib.conn.execute('SELECT count(*) FROM keys WHERE identity_id=?', (self.row_id,))
+        cursor = self.pib.conn.execute('SELECT count(*) FROM certificates WHERE key_id=?', (self.row_id,))
         ret = cursor.fetchone()[0]
         cursor.close()
         return ret
